@@ -36,6 +36,7 @@ type Env struct {
 	overlayFiles  map[string]string // virtual -> real path
 	verbose       bool
 	nativeCache   sync.Map
+	memo          sync.Map
 }
 
 type Harness struct {
